@@ -137,6 +137,12 @@ goal		:  initlex sect1 sect1end sect2 initforrule
 
 			finish_rule( def_rule, false, 0, 0, 0);
 
+			/* The default rule has an action of its own, whatever
+			 * the last rule's was.
+			 */
+			continued_action = false;
+			begin_rule_action();
+
 			for ( i = 1; i <= lastsc; ++i )
 				scset[i] = mkbranch( scset[i], def_rule );
 
@@ -236,7 +242,14 @@ option		:  TOK_OUTFILE '=' NAME
 		;
 
 sect2		:  sect2 scon initforrule flexrule '\n'
-			{ scon_stk_ptr = $2; }
+			{
+			/* Open the action of a pattern rule now that the
+			 * scanner has seen whether it is a '|' action.
+			 */
+			if ( $4 )
+				begin_rule_action();
+			scon_stk_ptr = $2;
+			}
 		|  sect2 scon '{' sect2 '}'
 			{ scon_stk_ptr = $2; }
 		|
@@ -258,6 +271,7 @@ initforrule	:
 flexrule	:  '^' rule
 			{
 			pat = $2;
+			$$ = true;
 			finish_rule( pat, variable_trail_rule,
 				headcnt, trailcnt , previous_continued_action);
 
@@ -294,6 +308,7 @@ flexrule	:  '^' rule
 		|  rule
 			{
 			pat = $1;
+			$$ = true;
 			finish_rule( pat, variable_trail_rule,
 				headcnt, trailcnt , previous_continued_action);
 
@@ -317,6 +332,7 @@ flexrule	:  '^' rule
 
 		|  EOF_OP
 			{
+			$$ = false;
 			if ( scon_stk_ptr > 0 )
 				build_eof_action();
 	
@@ -343,7 +359,7 @@ flexrule	:  '^' rule
 			}
 
 		|  error
-			{ synerr( _("unrecognized rule") ); }
+			{ $$ = false; synerr( _("unrecognized rule") ); }
 		;
 
 scon_stk_ptr	:
